@@ -407,6 +407,54 @@ def check_boundary(rep, proj, tier):
     rep.floor("threshold-boundary cells", n, 10)
 
 
+def _rows_job(kw):
+    """Fixed-flavour schemes: NfFF quarks are active at every Q2, so in a flavour-tagged observable no quark heavier than NfFF feeds the
+    operator - except the tagged quark itself (its intrinsic component).  Real electroweak weights (CKM structure included)."""
+    from .. import model
+
+    proj = model.project()
+    try:
+        op = O.fold_op(proj, R.Cell(**kw), weights="full")
+    except O.FoldFailure as f:
+        return ("fold", f.outcome.status, f"{f.outcome.etype} {f.outcome.msg}"[:160])
+    tagged = {"charm": 4, "bottom": 5, "top": 6}[kw["obs"].split("_")[1]]
+    bad = []
+    n = 0
+    for key in sorted(op.keys()):
+        for q in range(kw["nfff"] + 1, 7):
+            if q == tagged:
+                continue
+            for s_ in (1, -1):
+                for j in range(R.GRID_N):
+                    n += 1
+                    e = op.entry(key, s_ * q, j)
+                    if not O.same(e, 0):
+                        bad.append(f"order {key} row {s_ * q} node {j}: {A.canon(A.to_rat(e))[:100]}")
+    return ("ok", n, bad[:2], len(bad))
+
+
+def check_rows(rep, proj, tier):
+    jobs = [dict(obs=f"{kind}_{fl}", process=proc, projectile=pr, fns=fns, nfff=nfff, nf=None, pto=1, ren_sv=sv, fact_sv=sv)
+            for kind, fl, (proc, pr), (fns, nfff), sv in itertools.product(
+                ["F2", "F3"], ["charm", "bottom", "top"], [("CC", "neutrino"), ("NC", "electron")], [("FFNS", 3), ("FFNS", 4), ("FFN0", 3)], [False, True])
+            if not (fns == "FFN0" and proc == "CC") and not (tier == "quick" and sv and kind == "F3")]
+    outs = sweep.run_cells(_rows_job, jobs)
+    n = 0
+    for kw, o in zip(jobs, outs):
+        label = f"{kw['obs']}|{kw['process']}|{kw['fns']}|NfFF={kw['nfff']}|sv={kw['ren_sv']}"
+        if o[0] == "fold":
+            if o[1] == "rejected":
+                rep.ok("C06.rows", "", label, f"configuration explicitly rejected ({o[2][:60]})")
+            else:
+                rep.undecided("C06.rows", "", label, f"not foldable ({o[1]}): {o[2]}")
+            continue
+        _, k, bad, nbad = o
+        n += k
+        rep.check(nbad == 0, "C06.rows", "src/yadism/coefficient_functions/heavy/kernels.py", label, f"{k} entries of quarks heavier than NfFF (other than the tagged one) vanish",
+                  f"{nbad} entries of quarks that are not active in this scheme are populated, e.g. " + "; ".join(bad), key=label)
+    rep.floor("rows of inactive quarks inspected", n, 790)
+
+
 def check_eko(rep):
     m = S._ext_module("eko.matchings")
     if m is None:
@@ -446,4 +494,5 @@ def run(rep, proj, tier):
     check_flow(rep, proj, tier)
     check_boundary(rep, proj, tier)
     check_history(rep, proj, tier)
+    check_rows(rep, proj, tier)
     check_eko(rep)
